@@ -241,7 +241,7 @@ def write_replay(prop_id, case, deviation, seed, tier):
     path = os.path.join(d, hexdigest(case) + ".json")
     rel = os.path.relpath(path, env.VERIF)
     with open(path, "w") as f:
-        json.dump({"property": prop_id, "tier": tier, "seed": seed, "case": case, "deviation": deviation}, f, indent=1, sort_keys=True, default=str)
+        json.dump({"property": prop_id, "tier": tier, "seed": seed, "case": case, "deviation": deviation}, f, indent=1, default=str)  # key order is part of a case (YAML mappings are ordered)
     return rel
 
 
